@@ -177,7 +177,7 @@ fn check_dom(prop: &str, tier: Tier) {
         execs += n;
         runs.insert("deep_and_wide_shape_probes".into(), json!({"subprocess_runs": n, "sizes": [12, 40, 1000, 100000, 600000], "shapes": ["chain", "star"], "operations": vh::deepdom::PROBES}));
         let (problems, n) = vh::domprobes::run_all();
-        println!("{} wide-parent / rootless-destination / many-Refs / from_raw / odd-UniqueId probes: {} cases, {} problems", prop, n, problems.len());
+        println!("{} wide-parent / rootless-destination / many-Refs / from_raw / many-instances / odd-UniqueId probes: {} cases, {} problems", prop, n, problems.len());
         for (key, what, case, mine) in problems {
             if mine == prop {
                 run.violation(&key, &what, || case);
@@ -186,7 +186,7 @@ fn check_dom(prop: &str, tier: Tier) {
         states += n;
         transitions += n;
         execs += n;
-        runs.insert("wide_parent_and_rootless_destination_probes".into(), json!({"cases": n, "widths": "1..=70, 255, 256, 257, 1000 (every child position up to 70, else first / middle / last 70)", "operations": ["destroy", "transfer_within", "transfer"], "rootless_destination_residents": [0, 1, 2, 3], "many_refs": {"properties_per_instance": "0..=40, 64, 65, 100, 257", "entry_points": 6, "string_only_carrier_masks": 32}, "from_raw_other_root": "every forest of <= 4 nodes x every new root x {construct, then insert, then clone_within}"}));
+        runs.insert("wide_parent_and_rootless_destination_probes".into(), json!({"cases": n, "widths": "1..=70, 255, 256, 257, 1000, 1023..1026, 2047..2049, 4097 (every child position up to 70, else first / middle / last 70)", "operations": ["destroy", "transfer_within", "transfer"], "rootless_destination_residents": [0, 1, 2, 3], "many_refs": {"properties_per_instance": "0..=40, 64, 65, 100, 257", "entry_points": 6, "string_only_carrier_masks": 32}, "from_raw_other_root": "every forest of <= 4 nodes x every new root x {construct, then insert, then clone_within}", "many_instances": {"sizes": [15, 16, 17, 31, 32, 33, 63, 64, 65, 127, 128, 129, 255, 256, 257, 1023, 1024, 1025, 4097], "operand": "first five, n/3, n/2, last two nodes of a ternary tree", "operations": ["destroy", "transfer_within", "transfer", "transfer there and back", "clone_within", "clone_into_external"], "oracle": "every instance of both DOMs against the documented outcome"}}));
     }
     if prop == "C12" {
         let (out, cfgs) = now_part(&run, tier);
